@@ -12,9 +12,48 @@ ASSUME = ["asyncio realises only transitions the LTS allows: validated on the ex
           "virtual time advances only while the loop is idle"]
 
 
+def workers_cli(chk):
+    """"the configured number of workers": `gwf workers -n N` must hand exactly N to the pool — also above the machine's CPU
+    count (a smaller pool leaves configured workers idle while ready tasks wait)"""
+    import multiprocessing
+    import os
+    import shutil
+    import cluster
+    import common
+    import gwf.plugins.workers as W
+    root = common.scratch_dir("gwfverif-c12w-")
+    seen = []
+    real = W.start_cluster
+    W.start_cluster = lambda *a, **kw: seen.append((a, kw))
+    try:
+        proj = os.path.join(root, "proj")
+        cluster.write_workflow(proj, [{"name": "A", "inputs": [], "outputs": ["a"], "spec": "touch a"}])
+        cl = cluster.FakeCluster(os.path.join(root, "cl"))
+        cpus = multiprocessing.cpu_count()
+        for n in (1, 2, 3, cpus, cpus + 1, cpus + 3, 97, None):
+            del seen[:]
+            args = ["workers", "-p", "23456"] + (["-n", str(n)] if n is not None else [])
+            code, out, err = cluster.run_gwf(args, proj, cl)
+            want = cpus if n is None else n
+            got = seen[0][0][1] if seen and len(seen[0][0]) > 1 else seen[0][1].get("max_cores") if seen else None
+            chk.count("workers-cli")
+            chk.case(("workers", n), n is not None and n > cpus, sample={"requested": n, "pool_cores": got} if n == cpus + 3 else None)
+            if code != 0 or got != want:
+                chk.violation({"kind": "workers-cli"}, {"kind": "input", "input": {"workers_cli_n": n, "cpu_count": cpus}, "implementation": {"exit": code, "pool_cores": got, "err": err[-200:]},
+                                                        "model": want, "what": "gwf workers -n %s starts a pool with %s cores" % (n, got)})
+    finally:
+        W.start_cluster = real
+        shutil.rmtree(root, ignore_errors=True)
+
+
 def run(chk):
     pool_check.run_prop(chk, PROP, RULE, ASSUME, real_runs=(2 if chk.tier == "quick" else 12))
+    workers_cli(chk)
 
 
 def replay(chk, data):
+    if "workers_cli_n" in data.get("input", {}):
+        chk.rule = RULE
+        workers_cli(chk)
+        return chk.finish()
     return pool_check.replay_prop(chk, PROP, RULE, data)
